@@ -42,6 +42,8 @@ func main() {
 			dumpSQL(prog, false)
 		case "sqlall":
 			dumpSQL(prog, true)
+		case "states":
+			dumpStates(prog)
 		}
 		return
 	}
